@@ -13,8 +13,20 @@ for P in "$@"; do
   echo "[$ID] check $P: exit $RC, $V violation lines: $(echo "$OUT" | grep -A1 "^VIOLATION" | sed -n 2p | cut -c1-260)"
   if [ $RC -eq 1 ]; then CAUGHT="$CAUGHT $P"; else MISSED="$MISSED $P"; fi
   if [ $RC -ge 2 ]; then echo "$OUT" | tail -5; fi
+  # the replay artefact of the first violation must reproduce on the changed tree ...
+  if [ $RC -eq 1 ] && [ -z "${RP:-}" ]; then
+    RP=$(echo "$OUT" | grep -m1 "^VIOLATION" | sed -n 's/.*replay=//p'); RPP=$P
+    case "$RP" in *.json) ROUT=$(./check "$P" --replay "$RP" 2>&1); RRC=$?; RWITH="exit $RRC: $(echo "$ROUT" | grep -m1 '^reproduced' | cut -c1-80)";; *) RWITH="not a JSON replay";; esac
+  fi
 done
 git -C /repo checkout -- .
+# ... and not on the unchanged tree
+RWITHOUT=""
+if [ -n "${RP:-}" ]; then
+  case "$RP" in *.json) ROUT=$(./check "$RPP" --replay "$RP" 2>&1); RRC=$?; RWITHOUT="exit $RRC: $(echo "$ROUT" | grep -m1 '^reproduced' | cut -c1-80)";; esac
+  echo "[$ID] replay $RP | with change: $RWITH | without: $RWITHOUT"
+fi
+export RWITH RWITHOUT
 python3 - "$ID" "$CAUGHT" "$MISSED" <<'PY'
 import json,sys
 id,c,m=sys.argv[1:4]
@@ -23,6 +35,9 @@ meta=json.load(open(p))
 s=set(meta.get("caught_by",[]))|set(c.split())
 meta["caught_by"]=sorted(s)
 meta["not_caught_by"]=sorted((set(meta.get("not_caught_by",[]))|set(m.split()))-s)
+import os
+if os.environ.get("RWITH"):
+    meta["replay_of_first_violation"]={"with_change":os.environ.get("RWITH"),"on_unchanged_tree":os.environ.get("RWITHOUT","")}
 json.dump(meta,open(p,'w'),indent=1)
 PY
 echo "[$ID] caught by:$CAUGHT   missed by:$MISSED"
